@@ -563,6 +563,23 @@ func leanStrList(xs []string) string {
 	return "[" + strings.Join(out, ", ") + "]"
 }
 
+// leanBytes renders a Go string as a Lean list of byte values (theorems can `decide` over these).
+func leanBytes(s string) string {
+	out := make([]string, len(s))
+	for i := 0; i < len(s); i++ {
+		out[i] = strconv.Itoa(int(s[i]))
+	}
+	return "[" + strings.Join(out, ", ") + "]"
+}
+
+func leanBytesList(xs []string) string {
+	out := make([]string, len(xs))
+	for i, x := range xs {
+		out[i] = leanBytes(x)
+	}
+	return "[" + strings.Join(out, ", ") + "]"
+}
+
 func sortedKeys(m map[string]string) []string {
 	var ks []string
 	for k := range m {
@@ -581,6 +598,7 @@ func render(f Facts) string {
 	fmt.Fprintf(&b, "/-- declared type of `Context.index` -/\ndef indexType : String := %s\n\n", leanStr(f.IndexType))
 	fmt.Fprintf(&b, "/-- `noWritten` (response_wirter.go) -/\ndef noWritten : Int := %d\n\n", f.NoWritten)
 	fmt.Fprintf(&b, "/-- `anyMethods`, in source order (rux.go) -/\ndef anyMethods : List String := %s\n\n", leanStrList(f.AnyMethods))
+	fmt.Fprintf(&b, "/-- `anyMethods` as byte strings -/\ndef anyMethodsB : List (List Nat) := %s\n\n", leanBytesList(f.AnyMethods))
 	b.WriteString("/-- the method name constants (name, value) -/\ndef methodConsts : List (String × String) := [")
 	for i, k := range sortedKeys(f.MethodConsts) {
 		if i > 0 {
@@ -610,6 +628,15 @@ func render(f Facts) string {
 		fmt.Fprintf(&b, "(%s, %s)", leanStr(k), leanStr(f.GlobalVars[k]))
 	}
 	b.WriteString("]\n\n")
+	b.WriteString("/-- `globalVars` as byte strings -/\ndef globalVarsB : List (List Nat × List Nat) := [")
+	for i, k := range sortedKeys(f.GlobalVars) {
+		if i > 0 {
+			b.WriteString(", ")
+		}
+		fmt.Fprintf(&b, "(%s, %s)", leanBytes(k), leanBytes(f.GlobalVars[k]))
+	}
+	b.WriteString("]\n\n")
+	fmt.Fprintf(&b, "def anyMatchB : List Nat := %s\n\n", leanBytes(f.AnyMatch))
 	fmt.Fprintf(&b, "/-- `anyMatch`: regex of a `{name}` variable without a regex of its own -/\ndef anyMatch : String := %s\n\n", leanStr(f.AnyMatch))
 	fmt.Fprintf(&b, "/-- default of `maxNumCaches` in `New` -/\ndef defaultMaxNumCaches : Int := %d\n\n", f.DefaultMaxCaches)
 	b.WriteString("/-- context keys (constant name, value) -/\ndef ctxKeys : List (String × String) := [")
